@@ -248,11 +248,11 @@ def execute(plan: dict) -> dict:
 
 # ----------------------------------------------------------------------------------------------
 
-NEEDS = {"sb2_config": "sb2", "fork": "sb2", "sb2": "sb2", "mbi_class": "mbi", "mbi_config": "mbi", "otfad": "otfad", "iee": "iee", "bee": "bee", "hab": "hab", "hab_rt": "habrt", "bee_config": "bee", "iee_config": "iee"}
+NEEDS = {"sb2_config": "sb2", "fork": "sb2", "sb2": "sb2", "mbi_class": "mbi", "mbi_config": "mbi", "otfad": "otfad", "iee": "iee", "bee": "bee", "hab": "hab", "hab_rt": "habrt", "bee_config": "bee", "iee_config": "iee", "sb2_keywrap": "sb2"}
 
 
 def gen_op(rng: random.Random, allow_fork: bool = True) -> dict:
-    kind = rng.choice(["sb2"] * 5 + ["sb2_config"] * 2 + ["mbi_class"] * 2 + ["mbi_config"] * 2 + ["otfad"] * 3 + ["iee"] * 3 + ["bee"] * 4 + ["bee_config"] * 2 + ["iee_config"] * 2 + ["hab"] * 2 + ["hab_rt"] * 2 + (["fork"] if allow_fork else []))
+    kind = rng.choice(["sb2"] * 5 + ["sb2_config"] * 2 + ["sb2_keywrap"] + ["mbi_class"] * 2 + ["mbi_config"] * 2 + ["otfad"] * 3 + ["iee"] * 3 + ["bee"] * 4 + ["bee_config"] * 2 + ["iee_config"] * 2 + ["hab"] * 2 + ["hab_rt"] * 2 + (["fork"] if allow_fork else []))
     if kind == "fork":
         def sub():
             return [gen_op(rng, allow_fork=False) for _ in range(rng.randint(1, 3))]
@@ -295,6 +295,8 @@ def gen_op(rng: random.Random, allow_fork: bool = True) -> dict:
         o["variant"] = rng.choice(["prdb", "kib", "header", "kib_explicit_key", "header_explicit_sw_key"])
         o["x"] = rng.randrange(2)
     elif kind == "bee_config":
+        o["empty_key"] = rng.random() < 0.4
+        o["reuse_config"] = rng.random() < 0.6
         o["engines"] = rng.choice(["engine0", "engine1", "both"])
         o["x"] = rng.randrange(2)
         o["export"] = rng.random() < 0.3
